@@ -54,9 +54,9 @@ func verifC13GenIxn(t *rapid.T, focusSrc, focusDst string, l4only bool) verifC13
 	pick := func(label, focus string) string {
 		// the focus name and the wildcard are drawn more often so that several intentions cover one pair
 		switch rapid.IntRange(0, 9).Draw(t, label+"-w") {
-		case 0, 1, 2:
+		case 0, 1, 2, 3:
 			return focus
-		case 3, 4, 5:
+		case 4, 5, 6:
 			return verifC13Wild
 		}
 		return rapid.SampledFrom(verifC13GenNames).Draw(t, label)
@@ -72,16 +72,20 @@ func verifC13GenIxn(t *rapid.T, focusSrc, focusDst string, l4only bool) verifC13
 func verifC13GenSet(t *rapid.T) []verifC13Ixn {
 	focusSrc := rapid.SampledFrom(verifC13GenNames[:3]).Draw(t, "focus-src")
 	focusDst := rapid.SampledFrom(verifC13GenNames[:3]).Draw(t, "focus-dst")
-	n := rapid.IntRange(0, 8).Draw(t, "n")
+	// sizes 0..8 (rapid favours the head of the list; duplicates of one key are dropped, so sets shrink anyway)
+	n := rapid.SampledFrom([]int{6, 5, 7, 4, 8, 3, 8, 2, 7, 1, 6, 0}).Draw(t, "n")
 	var set []verifC13Ixn
 	seen := map[string]bool{}
 	for i := 0; i < n; i++ {
-		x := verifC13GenIxn(t, focusSrc, focusDst, false)
-		if seen[x.key()] {
-			continue
+		for try := 0; try < 3; try++ { // a (source, peer, destination) triple exists once; redraw on collision
+			x := verifC13GenIxn(t, focusSrc, focusDst, false)
+			if seen[x.key()] {
+				continue
+			}
+			seen[x.key()] = true
+			set = append(set, x)
+			break
 		}
-		seen[x.key()] = true
-		set = append(set, x)
 	}
 	return set
 }
@@ -136,7 +140,11 @@ func verifC13GenPlan(t *rapid.T, set []verifC13Ixn, modes []string, l4only bool,
 	touched := map[string]bool{}
 	inSet := verifC13SetMap(set)
 	for k := 0; k < nchurn; k++ {
-		kind := rapid.SampledFrom([]string{"del-recreate", "overwrite", "transient"}).Draw(t, "churn")
+		kinds := []string{"del-recreate", "overwrite", "transient"}
+		if l4only {
+			kinds = append(kinds, "rename", "rename")
+		}
+		kind := rapid.SampledFrom(kinds).Draw(t, "churn")
 		if kind != "transient" && len(set) == 0 {
 			kind = "transient"
 		}
@@ -162,6 +170,21 @@ func verifC13GenPlan(t *rapid.T, set []verifC13Ixn, modes []string, l4only bool,
 			if op.Kind == "put" && op.Ixn.key() == x.key() {
 				final = i
 			}
+		}
+		if kind == "rename" {
+			// the intention is first written under another name y and later updated BY ID to its final name
+			y := verifC13GenIxn(t, "web", "db", true)
+			if p.Mode == "legacy-id" {
+				y.Dst = x.Dst // Intention.Apply: "Cannot modify Destination ... for an intention once it exists"
+			}
+			if _, ok := inSet[y.key()]; ok || touched[y.key()] {
+				continue
+			}
+			touched[y.key()] = true
+			a := rapid.IntRange(0, final).Draw(t, "ra")
+			p.Ops = verifC13Insert(p.Ops, a, verifC13WOp{Kind: "put", Ixn: y})
+			p.Ops[final+1].From = &y
+			continue
 		}
 		early := x
 		if kind == "overwrite" || rapid.Bool().Draw(t, "early-variant") {
